@@ -47,6 +47,8 @@ def runner(sub, tier, seed, shard, nshards, rec):
 SUBS = [
     Sub("histories", M.replay, runner=runner, examples=EX, weight=5),
     Sub("giant", G.check, strategy=G.histories, examples={"quick": 1500, "thorough": 60000}),
+    Sub("merges", lambda case, rec: G.check_merges(case, rec), enumerate=G.enum_merges, exhaustive=True,
+        shards={"quick": 4, "thorough": 8}),
     Sub("long_entries", lambda case, rec: G.check_long_entries(case, rec), enumerate=G.enum_long_entries, exhaustive=True,
         shards={"quick": 4, "thorough": 8}),
     Sub("collapsed_wide", lambda case, rec: _collapsed(case, rec), strategy=lambda tier: _collapsed_cases(tier),
